@@ -10,6 +10,7 @@
 
 """Base classes for various IFF based formats (e.g. AIFF or RIFF)."""
 
+import struct
 import sys
 
 from mutagen.id3 import ID3
@@ -162,7 +163,11 @@ class IffChunk(object):
         old_size = self.size
         self.data_size += size_diff
         self._fileobj.seek(self.offset + 4)
-        self.write_size()
+        try:
+            self.write_size()
+        except struct.error:
+            raise error("Invalid size %d for chunk %r, the chunk sizes "
+                        "are inconsistent" % (self.data_size, self.id))
         self._calculate_size()
         if self.parent_chunk is not None:
             self.parent_chunk._update_size(self.size - old_size, self)
